@@ -463,6 +463,8 @@ pub fn update_rem_cid_native(have_next: bool) -> u32 {
             .unwrap();
     }
     let before = conn.spaces[SpaceId::Data].pending.retire_cids.clone();
+    // the CID being left came with a reset token of its own (every switch but a client's first one)
+    conn.peer_params.stateless_reset_token = Some(ResetToken::from([0x11; 16]));
     conn.update_rem_cid();
     if !have_next {
         assert!(conn.spaces[SpaceId::Data].pending.retire_cids == before && conn.endpoint_events.is_empty());
@@ -472,7 +474,7 @@ pub fn update_rem_cid_native(have_next: bool) -> u32 {
     let retire = &conn.spaces[SpaceId::Data].pending.retire_cids;
     assert!(retire.contains(&0) && retire.contains(&1) && retire.len() == before.len() + 2, "skipped sequence numbers not queued for retirement in the Data space");
     assert!(conn.spaces[SpaceId::Handshake].pending.retire_cids.is_empty() && conn.spaces[SpaceId::Initial].pending.retire_cids.is_empty());
-    assert!(conn.peer_params.stateless_reset_token == Some(token));
+    assert!(conn.peer_params.stateless_reset_token == Some(token), "the reset token of the CID that was left is still in force");
     assert!(matches!(conn.endpoint_events.pop_front(), Some(EndpointEventInner::ResetToken(a, t)) if a == conn.path.remote && t == token), "reset token of the new CID not announced");
     2
 }
@@ -742,7 +744,8 @@ pub fn black_hole_datagrams_native(_x: u8) -> u32 {
     let t0 = crate::verif::mk_instant(50, 0).unwrap();
     let now = crate::verif::mk_instant(55, 0).unwrap();
     assert!(conn.datagrams().send(Bytes::from(vec![1u8; 1300]), false).is_ok(), "1300 bytes fit a 1452-byte path");
-    conn.datagrams.send_blocked = true;
+    let blocked = _x == 0;
+    conn.datagrams.send_blocked = blocked;
     // one large packet in flight in the Data space, far behind the largest acknowledged one
     let sent = SentPacket { path_generation: 0, time_sent: t0, size: 1400, ack_eliciting: true, largest_acked: None, retransmits: ThinRetransmits::default(), stream_frames: Default::default() };
     paths::in_flight_insert(&mut conn.path, &sent);
@@ -756,7 +759,7 @@ pub fn black_hole_datagrams_native(_x: u8) -> u32 {
     assert!(max < 1300);
     assert!(conn.datagrams.outgoing.iter().all(|d| d.data.len() <= max), "a datagram that no longer fits the path is still queued after the black hole was detected");
     assert!(!conn.datagrams.send_blocked, "application not told that datagrams can be sent again");
-    1
+    1 + blocked as u32
 }
 
 /// Native replay body for the E2 slice query `e2_poll_transmit_pad_guard_slice` (C13): an established
